@@ -266,14 +266,17 @@ TRUSTED = ("trusted base: TLC; the TLA+ text; the harness projection (own strict
 
 def _text(pid):
     p = PROPS[pid]
-    models = sorted({m["module"] for pl in p["pipelines"] for m in PIPELINES[pl].get("mc", [])})
+    models = sorted({m["module"] for pl in p["pipelines"] for m in PIPELINES[pl].get("mc", []) if m.get("mode") != "apalache"})
+    ind = sorted({m["module"] for pl in p["pipelines"] for m in PIPELINES[pl].get("mc", []) if m.get("mode") == "apalache"})
+    extra = (" In the thorough tier Apalache also discharges an inductive invariant (spec/ind/%s.tla) that covers histories of any length." % ", ".join(ind)) if ind else ""
     return {
         "text": ("TLC model-checks the bounded TLA+ model(s) %s (implementation-shaped rules against the requirement clauses / state invariants of the property), "
                  "the cases those models enumerate are replayed into the real rcgen built from /repo's working tree, and TLC validates every recorded event "
-                 "against the %s clauses of the specification (trace validation; a broken clause is a VIOLATION). Domain: %s") % (", ".join(models), "/".join(p["clauses"]), p["rule"]),
+                 "against the %s clauses of the specification (trace validation; a broken clause is a VIOLATION).%s Domain: %s") % (", ".join(models) if models else "(none: driver-generated cases only)", "/".join(p["clauses"]), extra, p["rule"]),
         "design_ref": "DESIGN.md section 6 (%s)" % pid,
         "note": TRUSTED,
-        "technique": "explicit TLA+ specification: TLC model checking of bounded models + replay of TLC-enumerated cases into rcgen + TLC trace validation of projected outputs",
+        "technique": "explicit TLA+ specification: TLC model checking of bounded models + replay of TLC-enumerated cases into rcgen + TLC trace validation of projected outputs"
+                     + ("; Apalache inductive invariant (thorough tier)" if ind else ""),
     }
 
 
